@@ -34,7 +34,8 @@ Definition d_bytes_key := 8.       (* byte-string literal as "value :" member ke
 Definition d_implicit_ws := 9.     (* pest's implicit skip admits blanks/comments where the RFC has no S *)
 Definition d_tag_forms := 10.      (* #DIGIT[.<type>][(type)] for every major type *)
 Definition d_ctrl_chars := 11.     (* control characters in text literals and comments, lone CR as whitespace *)
-Definition d_escapes := 12.        (* \uXXXX and \u{X..} for any hex digits (surrogates, > 10FFFF) *)
+Definition d_escapes := 12.        (* \uXXXX and \u{X..} for any hex digits (surrogates, > 10FFFF) at GRAMMAR level; since 51d94c0
+                                      the bridge rejects such literals, except inside #6.<type> / #7.<type>, whose type is never converted *)
 Definition d_paren_entry := 13.    (* a group entry starting with "(" is an inline group, whatever follows the ")" *)
 Definition all_deviations : N := 16382.   (* bits 1 .. 13 *)
 
